@@ -122,6 +122,13 @@ def run(tier):
         an = r.choice("ab")
         whole.append((g + " " + an, g + an, None))
         whole.append((g, T.render(t).replace("Glc(", "Glcp(").replace("Man(", "D-Manp(").replace("Fuc(", "L-Fuc("), None))
+    for base_, own_ in (("Man", "D-"), ("Gal", "D-"), ("Glc", "D-"), ("Ara", "L-"), ("Xyl", "D-"), ("Alt", "L-") if False else ("Tal", "D-")):
+        for sz in ("Hep", "Oct", "Hex"):
+            if sz == "Hex" and base_ not in ("Ara", "Xyl"):
+                continue
+            whole.append((f"{base_}{sz}(a1-3)Glc", f"{own_}{base_}{sz}(a1-3)Glc", None))
+            whole.append((f"Gal(b1-4)[{base_}{sz}(a1-3)]GlcNAc b", f"Gal(b1-4)[{own_}{base_}{sz}(a1-3)]GlcNAc b", None))
+            whole.append((f"{base_}{sz}", f"{own_}{base_}{sz}", None))
     spell += whole
     flat = sorted(set(x for s in spell for x in s[:2]))
     out = dict(zip(flat, chem.convert_all(flat)))
